@@ -1,6 +1,6 @@
 (* C01 — Transferred bytes are exactly the file's bytes. Theorems only; proofs in Proofs/TransferP.v, Proofs/TransferE2EP.v *)
 From Coq Require Import List NArith Bool Arith Permutation Strings.Byte.
-From Sftp Require Import Base.GoSem Xfer.Transfer Proofs.TransferP Proofs.TransferE2EP.
+From Sftp Require Import Base.GoSem Xfer.Transfer Proofs.TransferP Proofs.TransferE2EP Proofs.TransferOrderP.
 Import ListNotations.
 
 (* every slicer cuts a transfer of n bytes into contiguous chunks of 1..p bytes that add up to n: this is where the
@@ -109,6 +109,24 @@ Theorem C01_readFromConc_exact : forall s p src off dispatched,
   readFromConc s p src off dispatched = (with_file s (splice (file s) off src), length src, None, off + length src).
 Proof. exact readFromConc_exact. Qed.
 Print Assumptions C01_readFromConc_exact.
+
+(* the order in which the server applies the chunk writes of one concurrent transfer does not matter: the model (writeAll)
+   applies the dispatched chunks in chunk order; applying the same writes in ANY order - with any subset of them rejected -
+   leaves the same file *)
+Theorem C01_concurrent_writes_any_order : forall fuel s off n p b boff errs s' errs' order,
+  1 <= p -> n <= fuel -> n <= length b - boff ->
+  writeAll (chunks fuel off n p) s b boff errs = (s', errs') ->
+  Permutation order (ops_of (chunks fuel off n p) b boff) ->
+  fold_left (wstep (wfail s)) order (file s) = file s'.
+Proof. exact concurrent_writes_any_order. Qed.
+Print Assumptions C01_concurrent_writes_any_order.
+
+(* ... because two writes to disjoint ranges commute, zero-filled gaps included *)
+Theorem C01_splice_commute : forall f o1 d1 o2 d2, d1 <> [] -> d2 <> [] ->
+  o1 + length d1 <= o2 \/ o2 + length d2 <= o1 ->
+  splice (splice f o1 d1) o2 d2 = splice (splice f o2 d2) o1 d1.
+Proof. exact splice_commute. Qed.
+Print Assumptions C01_splice_commute.
 
 (* MODELLED, NOT PROVED ABOUT THE CODE: `srv` (READ = up to min(len,maxTx) bytes or EOF status; WRITE = splice) stands for
    both servers with and without the allocator, and the model functions for client.go's loops; both are tied to the code
